@@ -259,3 +259,11 @@ Proof.
     destruct (memb y (dkeys T)) eqn:M; [reflexivity|].
     symmetry. apply tget2_row_absent. apply dmem_false_In. intro Hin. apply memb_In in Hin. congruence.
 Qed.
+
+Lemma dget_app {V} k (l1 l2 : dict V) :
+  dget k (l1 ++ l2) = match dget k l1 with Some v => Some v | None => dget k l2 end.
+Proof. induction l1 as [|[k' v'] r IH]; simpl; [reflexivity|]. destruct (Z.eqb k k'); [reflexivity | exact IH]. Qed.
+
+Lemma dkeys_app {V} (l1 l2 : dict V) : dkeys (l1 ++ l2) = dkeys l1 ++ dkeys l2.
+Proof. unfold dkeys. apply map_app. Qed.
+
